@@ -9,7 +9,7 @@ git -C /repo worktree add --detach $wt HEAD >/dev/null 2>&1 || { echo "$id: work
 res="$id:"
 ok=1
 ( cd $wt && git apply --3way $patch >/dev/null 2>&1 || git apply $patch ) || { echo "$id: PATCH DOES NOT APPLY to current HEAD"; git -C /repo worktree remove --force $wt; exit 3; }
-git -C $wt diff -- include > $wt/applied.diff
+git -C $wt diff HEAD -- include > $wt/applied.diff
 g++ -std=c++17 -I$wt/include -pthread $demo -o $wt/demo_with 2>$wt/demo_build.log || { res="$res demo-does-not-compile"; ok=0; }
 if [ $ok = 1 ]; then timeout 600 $wt/demo_with >/dev/null 2>&1; w=$?; else w=-1; fi
 g++ -std=c++17 -I/repo/include -pthread $demo -o $wt/demo_without 2>>$wt/demo_build.log && timeout 1800 $wt/demo_without >/dev/null 2>&1; wo=$?
